@@ -376,6 +376,7 @@ class StmtMixin:
                             self.oblige(p2, f"variant-decreases:{tag}", dec(ctx_of(p2, k + 1)) < v0, s)
                         elif not is_for:
                             self.assumptions.add(f"termination of while-loop #{ordn} of {self.cur_func.qual} not proved (no variant)")
+                        self.ended_paths.append(p2)  # path ends at the back edge: keep its obligations
                     elif kind == BRK:
                         outs.append((NEXT, p2, None))
                     else:
